@@ -213,6 +213,22 @@ def _():
     m = parse_marker('(sys_platform == "interix" or sys_platform == "linux") and sys_platform != "linux"')
     return a is True and b is True and m.validate({"sys_platform": "interix"}) is True and str(m) == 'sys_platform == "interix"'
 
+@w("D42")
+def _():
+    # readme = {text = "..."}: the description is that text, wherever the project lives
+    import tempfile, pathlib, shutil
+    from poetry.core.factory import Factory
+    from poetry.core.masonry.builders.builder import Builder
+    d = pathlib.Path(tempfile.mkdtemp(prefix="pcv-d42-"))
+    try:
+        (d / "pkg").mkdir(); (d / "pkg" / "__init__.py").write_text("")
+        (d / "pyproject.toml").write_text('[project]\nname = "demo"\nversion = "1.0"\ndescription = "d"\n'
+            'readme = {text = "Hello *world*", content-type = "text/markdown"}\n[tool.poetry]\npackages = [{include = "pkg"}]\n')
+        text = Builder(Factory().create_poetry(d)).get_metadata_content()
+        return text.endswith("\n\nHello *world*\n") or text.endswith("\n\nHello *world*")
+    finally:
+        shutil.rmtree(d, ignore_errors=True)
+
 if __name__ == "__main__":
     ids = sys.argv[1:] or list(W)
     bad = 0
